@@ -347,5 +347,5 @@ def run(tier: str) -> int:
     items = sks + eqs + big
     random.Random(seed()).shuffle(items)
     items.sort(key=lambda s: -sk_size(s))
-    collect(rep, pmap(worker, items, budget_s=420 if tier == "quick" else 3000, chunk=8))
+    collect(rep, pmap(worker, items, budget_s=420 if tier == "quick" else 720, chunk=8))
     return rep.finish(required_reach=["evaluate"])
